@@ -16,6 +16,10 @@ RULE = (
     "in return, annotated-assignment, argument and un-annotated assignment position; comptime(expr) given as a plain "
     "number, as an arithmetic expression and as a module global; literal tuples; comptime tuples (incl. nested); comptime "
     "lists at frozenarray. Integers: all values within 2 of 0, ±2^62, ±2^63, ±2^64 plus random magnitudes up to 2^130. "
+    "PLUS literal positions: the literal (0-3 minus signs, boundary magnitudes) placed at every expression position where the CFG builder "
+    "rewrites/hoists/duplicates nodes (ends and middle of chained comparisons incl. in if/while/and, and/or/not operands, IfExp arms and condition, "
+    "walrus value, aug-assign rhs, call arguments, tuple/array elements, subscript index, default return), constants read back AND the lowered program "
+    "evaluated by harness/hugr_interp.py on arguments around the literal's value against CPython. "
     "Each case is type-checked by the REAL check() and, if accepted, lowered by the real compiler and every Const's "
     "ConstInt payload is read back. non-trivial = some integer is within 2 of a bound or |v| >= 2^62; distinct by canonical case"
 )
@@ -446,6 +450,219 @@ def tie(ctx):
         elif rcls == "ok" and model[1] == "float":
             # an int literal at float: the constant stays an int constant followed by a conversion (C16)
             pass
+    _tie_positions(ctx)
+
+
+# =====================================================================================================
+# literal POSITIONS: every expression position where the CFG builder rewrites, hoists or duplicates nodes
+# =====================================================================================================
+# `L` is replaced by the literal text (0-3 minus signs + magnitude); `T` by the numeric type (int, or nat where the
+# literal is checked against an annotation).  own = integer constants the template itself contains.
+POS_TEMPLATES = {
+    "cmp_mid": ("def f(x: int, y: int) -> bool:\n    return x < L < y\n", "bool", ()),
+    "cmp_mid_le": ("def f(x: int, y: int) -> bool:\n    return x <= L <= y\n", "bool", ()),
+    "cmp_first": ("def f(x: int, y: int) -> bool:\n    return L < x < y\n", "bool", ()),
+    "cmp_last": ("def f(x: int, y: int) -> bool:\n    return x < y < L\n", "bool", ()),
+    "cmp_chain4": ("def f(x: int, y: int) -> bool:\n    return x <= L <= y <= L\n", "bool", ()),
+    "cmp_two_mid": ("def f(x: int, y: int) -> bool:\n    return x >= L > L >= y\n", "bool", ()),
+    "cmp_if": ("def f(x: int, y: int) -> int:\n    if x < L < y:\n        return x\n    return y\n", "int", ()),
+    "and": ("def f(x: int, y: int) -> bool:\n    return x < L and y > L\n", "bool", ()),
+    "or": ("def f(x: int, y: int) -> bool:\n    return x == L or y == L\n", "bool", ()),
+    "not": ("def f(x: int, y: int) -> bool:\n    return not (x < L)\n", "bool", ()),
+    "and_chain": ("def f(x: int, y: int) -> bool:\n    return x < y and x < L < y\n", "bool", ()),
+    "ifexp_arm": ("def f(x: int, y: int) -> int:\n    return L if x < y else y\n", "int", ()),
+    "ifexp_else": ("def f(x: int, y: int) -> int:\n    return x if x < y else L\n", "int", ()),
+    "ifexp_cond": ("def f(x: int, y: int) -> int:\n    return x if L < y else y\n", "int", ()),
+    "ifexp_cond_chain": ("def f(x: int, y: int) -> int:\n    return x if x < L < y else y\n", "int", ()),
+    "walrus": ("def f(x: int, y: int) -> int:\n    if (z := L) < x:\n        return z\n    return y\n", "int", ()),
+    "aug": ("def f(x: int, y: int) -> int:\n    x += L\n    y -= L\n    return x + y\n", "int", ()),
+    "call_arg": ("def g(a: T, b: T) -> T:\n    return a\n\n@guppy\ndef f(x: T, y: T) -> T:\n    return g(L, x) + g(y, L)\n", "T", ()),
+    "tuple": ("def f(x: T, y: T) -> tuple[T, T, T]:\n    return (L, x, L)\n", ("tuple", ["T", "T", "T"]), ()),
+    "array": ("def f(x: int, y: int) -> int:\n    xs = array(L, x, L)\n    return xs[0] + xs[2]\n", "int", (0, 2)),
+    "index": ("def f(x: int, y: int) -> int:\n    xs = array(x, y, x)\n    return xs[L]\n", "int", ()),
+    "default_ret": ("def f(x: T, y: T) -> T:\n    if x > y:\n        return x\n    return L\n", "T", ()),
+    "while": ("def f(x: int, y: int) -> int:\n    while x < L < y:\n        x = y\n    return x\n", "int", ()),
+    "assign_then_cmp": ("def f(x: int, y: int) -> bool:\n    z = L\n    return x < z < y\n", "bool", ()),
+}
+POS_WITH_NAT = ("call_arg", "tuple", "default_ret")
+
+
+def _pos_source(c, python=False):
+    tpl, _shape, _own = POS_TEMPLATES[c["tpl"]]
+    if python:
+        # CPython reference: the literal with Guppy's run-time wrap-around applied to each *unfolded* minus (C04)
+        lit = f"({c['pyval']})"
+    else:
+        lit = _lit_src(c["negs"], c["n"])
+    src = tpl.replace("T", c["kind"]).replace("L", lit)
+    return src if python else "@guppy\n" + src
+
+
+def _pos_shape(c):
+    sh = POS_TEMPLATES[c["tpl"]][1]
+    if isinstance(sh, tuple):
+        return ("tuple", [c["kind"] for _ in sh[1]])
+    return c["kind"] if sh == "T" else sh
+
+
+def _pos_oracle(c):
+    """(accept?, folded constant value, value of the literal expression as the program must see it)"""
+    k, negs, n = c["kind"], c["negs"], c["n"]
+    inner = -n if negs >= 1 else n
+    if k == "nat":
+        if negs >= 2:
+            return (False, None, None)       # `- -n` is an int expression: never a nat
+        return (_in_range(inner, "nat"), inner, inner)
+    if not _in_range(inner, "int"):
+        return (False, None, None)
+    v = inner
+    for _ in range(max(negs - 1, 0)):
+        v = ((-v + P63) % P64) - P63
+    return (True, inner, v)
+
+
+def _pos_args(c, v):
+    """argument pairs around the literal's value (clipped to the parameter type's range)"""
+    lo, hi = (0, P64 - 1) if c["kind"] == "nat" else (-P63, P63 - 1)
+    cand = [v - 1, v, v + 1, -v, 0, 3, lo, hi]
+    cand = sorted({min(max(x, lo), hi) for x in cand})
+    pairs = [(a, b) for a in cand for b in cand]
+    return pairs
+
+
+def _pos_python(c, pairs):
+    """results of the same source under CPython, wrapped to the declared 64-bit types"""
+    class _Arr:
+        def __class_getitem__(cls, item):
+            return list
+    env = {"guppy": (lambda f: f), "nat": int, "array": (lambda *a: list(a)), "__builtins__": {"int": int, "bool": bool, "tuple": tuple, "abs": abs}}
+    exec(_pos_source(c, python=True), env)
+    wrap = (lambda r: r % P64) if c["kind"] == "nat" else (lambda r: ((r + P63) % P64) - P63)
+    out = []
+    for a, b in pairs:
+        r = env["f"](a, b)
+        if isinstance(r, bool):
+            out.append(r)
+        elif isinstance(r, tuple):
+            out.append(tuple(wrap(x) for x in r))
+        else:
+            out.append(wrap(r))
+    return out
+
+
+def _pos_cases(ctx):
+    rng = ctx.rng
+    mags = [0, 1, 5, P63 - 1, P63, P63 + 1, P64 - 1, P64]
+    cases = []
+    corpus = os.path.join(vlib.VERIF, "corpus", "c17_positions")
+    if os.path.isdir(corpus):
+        for fn in sorted(os.listdir(corpus)):
+            cases.extend(json.load(open(os.path.join(corpus, fn))))
+    if ctx.replay_in and "poscase" in ctx.replay_in.get("replay", {}):
+        cases.append(ctx.replay_in["replay"]["poscase"])
+    for tpl in POS_TEMPLATES:
+        kinds = ["int", "nat"] if tpl in POS_WITH_NAT else ["int"]
+        for kind in kinds:
+            if ctx.quick:
+                lits = [(1, 5), (0, 5), (1, P63), (0, P63 - 1), (2, 5), (1, P63 + 1), (0, P63), (2, P63)]
+                lits += [(rng.randrange(0, 4), rng.choice(mags + [rng.getrandbits(62), rng.getrandbits(64)])) for _ in range(2)]
+                if kind == "nat":
+                    lits = [(0, 5), (0, P64 - 1), (0, P64), (1, 0), (1, 1), (2, 5)]
+            else:
+                lits = [(ng, n) for ng in range(4) for n in mags + [rng.getrandbits(62), rng.getrandbits(63), rng.getrandbits(64)]]
+            for ng, n in lits:
+                cases.append({"form": "pos", "tpl": tpl, "kind": kind, "negs": ng, "n": n})
+    return cases
+
+
+def _tie_positions(ctx):
+    import feed
+    import hugr.ops as ops
+    import hugr_interp as hi
+    cases = _pos_cases(ctx)
+    reqs = []
+    for c in cases:
+        reqs += [f"lit {c['kind']} {c['negs']} {c['n']}", f"eval {c['negs']} {c['n']}"]
+    replies = ctx.driver(DRIVER, reqs)
+    skipped = 0
+    for i, c in enumerate(cases):
+        key = json.dumps(c, sort_keys=True)
+        mcls = replies[2 * i].split(":")[0]
+        acc, inner, v = _pos_oracle(c)
+        own = set(POS_TEMPLATES[c["tpl"]][2])
+        src = _pos_source(c)
+        line = next(l.strip() for l in src.splitlines() if "- " * c["negs"] + str(c["n"]) in l)
+        rep = {"poscase": c, "source": src}
+        # ---- real
+        try:
+            m = feed.load(src)
+        except BaseException as e:  # noqa: BLE001
+            ctx.broke(f"position probe does not load: {key}: {type(e).__name__}")
+            continue
+        try:
+            kind, exc = feed.check_outcome(m.f)
+            rcls = "ok" if kind == "ok" else (ERR.get(feed.err_class(exc), "other:" + feed.err_class(exc)) if kind == "user" else "crash:" + type(exc).__name__)
+            ctx.count(c, nontrivial=_nontrivial([c["n"]]) or c["negs"] >= 1, kind=f"pos:{c['tpl']}:{rcls.split(':')[0]}")
+            if (rcls == "ok") != acc:
+                ctx.violation("input:" + key,
+                              f"literal `{_lit_src(c['negs'], c['n'])}` in position {c['tpl']} ({c['kind']}) is "
+                              f"{'accepted' if rcls == 'ok' else 'rejected (' + rcls + ')'} but the statement says {'accept' if acc else 'reject'}: `{line}`",
+                              dict(rep, real=rcls, oracle=acc))
+                continue
+            if rcls != mcls:
+                ctx.broke(f"correspondence Model/IntLit.lean vs checker at position {key}: real={rcls} model={mcls}")
+            if rcls != "ok":
+                continue
+            try:
+                g = feed.lower(m.f)
+            except BaseException as e:  # noqa: BLE001
+                ctx.violation("input:" + key, f"accepted literal crashes the compiler at position {c['tpl']}: {type(e).__name__}: {str(e)[:80]}: `{line}`", rep)
+                continue
+            consts, negs = [], 0
+            for nd in g.hugr:
+                op = g.hugr[nd].op
+                if isinstance(op, ops.Const):
+                    _const_payloads(op.val, consts)
+                elif feed.op_name(op) == "arithmetic.int.ineg":
+                    negs += 1
+            got = {_decode(k, u) for k, u, _w in consts if k in ("int", "nat")}
+            want = {inner} | own
+            if got != want:
+                ctx.violation("input:" + key,
+                              f"constants of the compiled program {sorted(got)} are not the literal's {sorted(want)} (position {c['tpl']}): `{line}`",
+                              dict(rep, consts=sorted(got), want=sorted(want), ineg=negs))
+                continue
+            if (negs > 0) != (c["negs"] >= 2):
+                ctx.broke(f"correspondence Model/IntLit.fold vs builder at position {key}: {negs} ineg ops for {c['negs']} minus signs")
+            # ---- evaluate the lowered program (reference interpreter) against CPython
+            if c["tpl"] == "index":
+                continue   # negative / huge index: Guppy panics where Python wraps around — not a literal question
+            c2 = dict(c, pyval=v)
+            pairs = _pos_args(c, v)
+            try:
+                want_vals = _pos_python(c2, pairs)
+            except BaseException as e:  # noqa: BLE001
+                ctx.broke(f"python reference failed for {key}: {type(e).__name__}: {e}")
+                continue
+            for (a, b), w in zip(pairs, want_vals):
+                try:
+                    r = hi.run(g.hugr, "f", [a, b], ret_shape=_pos_shape(c))
+                except (hi.Unsupported, hi.OutOfFuel):
+                    skipped += 1
+                    break
+                except hi.InterpError as e:
+                    ctx.broke(f"interpreter error on {key}: {e}")
+                    break
+                out = r.outcome()
+                if out != ("value", w):
+                    ctx.violation("input:" + key,
+                                  f"compiled program computes {out} on ({a}, {b}), Python gives {w}: literal `{_lit_src(c['negs'], c['n'])}` at position {c['tpl']}: `{line}`",
+                                  dict(rep, args=[a, b], real=repr(out), oracle=repr(w)))
+                    break
+        finally:
+            feed.unload(m)
+    ctx.extra["position_cases"] = len(cases)
+    ctx.extra["position_interp_skipped"] = skipped
 
 
 if __name__ == "__main__":
